@@ -69,7 +69,7 @@ def gen_case(rng, idx, tier):
     }
 
 
-ALLOWED_WRITE_SUFFIXES = ("-backend-tracked.json", "spec-hashes.json")
+ALLOWED_WRITE_SUFFIXES = ("-backend-tracked.json", "spec-hashes.json", "-backend-tracked.json.tmp", "spec-hashes.json.tmp")
 
 
 def preview_guard(res, proj, sim, fn, what):
@@ -104,7 +104,11 @@ def preview_guard(res, proj, sim, fn, what):
             p = e["path"]
             if p.startswith(proj.root) and not p.endswith(ALLOWED_WRITE_SUFFIXES):
                 res.violation("preview-side-effect", "`%s` opened %s for writing" % (what, p))
-        elif e["ev"] in ("os.remove", "os.rename", "os.utime", "os.rmdir", "shutil.rmtree", "os.truncate"):
+        elif e["ev"] == "os.rename":
+            a = e.get("args") or []
+            if not (len(a) >= 2 and str(a[0]).endswith(ALLOWED_WRITE_SUFFIXES) and str(a[1]).endswith(ALLOWED_WRITE_SUFFIXES)):
+                res.violation("preview-side-effect", "`%s` renamed %s" % (what, a))
+        elif e["ev"] in ("os.remove", "os.utime", "os.rmdir", "shutil.rmtree", "os.truncate"):
             res.violation("preview-side-effect", "`%s` performed %s %s" % (what, e["ev"], e.get("args")))
     return r
 
